@@ -17,7 +17,7 @@ META = {
     ),
     "anchors": ["linalg.svd_truncated", "linalg.calc_sub_max_bonds", "block_core.BlockVector.to_dense"],
     "floors": {
-        "quick": {"evaluations": 6000, "distinct_nontrivial": 1500, "tables": {"mode": 5000, "outcome/some-kept-some-discarded": 1200, "outcome/whole-charge-removed": 300, "outcome/everything-discarded": 100, "ladder": 400, "absorb": 1500, "nocutoff": 500, "feature/four-or-more-charges": 300}},
+        "quick": {"evaluations": 6000, "distinct_nontrivial": 1500, "tables": {"mode": 5000, "outcome/some-kept-some-discarded": 1200, "outcome/whole-charge-removed": 300, "outcome/everything-discarded": 100, "ladder": 400, "absorb": 1500, "nocutoff": 500, "feature/four-or-more-charges": 300, "feature/more-than-256-singular-values": 40}},
         "thorough": {"evaluations": 200000, "distinct_nontrivial": 40000, "tables": {"outcome/everything-discarded": 3000}},
     },
     "wall": {"quick": 300, "thorough": 1500},
@@ -236,9 +236,30 @@ def absorb_variants(ctx, x, cutoff, mode, max_bond, rec, wit):
             return
 
 
-def case(ctx, rng):
-    many = rng.random() < 0.35
-    x, feats = lingen.rand_matrix(ctx, rng, kind=rng.choice(["direct", "direct", "fused", "deficient"]) if not many else "direct", min_charges=2 if not many else 4, max_charges=3 if not many else 6, sym=rng.choice(["U1", "U1U1", "Z4", "Z2Z2"]) if many else None, sparsity=0.0 if many else None)
+def case(ctx, rng, big=False):
+    many = rng.random() < 0.35 and not big
+    if big:
+        # 260-520 singular values in all (2-3 sectors of 90-220): beyond any small-array regime
+        # of sorting / selection routines
+        sr = ctx.sr
+        sym = rng.choice(["Z2", "U1", "Z4", "U1U1"])
+        cs = rng.sample(gen.POOL[sym], rng.randint(2, 3) if len(gen.POOL[sym]) > 2 else 2)
+        n_each = [rng.randint(130, 220) if len(cs) == 2 else rng.randint(90, 170) for _ in cs]
+        r_ = sr.BlockIndex(dict(zip(cs, n_each)), dual=rng.random() < 0.5)
+        c_ = sr.BlockIndex({c: n + rng.randint(0, 6) for c, n in zip(cs, n_each)}, dual=not r_.dual)
+        dt = rng.choice(["float64", "float64", "complex128"])
+        x = gen.make_array(sr, rng, sym, [r_, c_], charge=R.identity(sym), fermionic=rng.random() < 0.5, values=gen.Values(rng, "gauss", dt), sparsity=0.0, nphase=0, exotic=False)
+        for s_, b in list(x.blocks.items()):
+            # a spread-out spectrum (geometric decay over 3-8 decades), same random vectors
+            b = np.asarray(b)
+            u_, sv_, vh_ = np.linalg.svd(b.astype("complex128" if b.dtype.kind == "c" else "float64"), full_matrices=False)
+            dec = rng.choice([3.0, 5.0, 8.0]) if b.dtype != np.float32 else 3.0
+            sv_ = sv_[0] * 10.0 ** (-dec * np.sort(np.asarray([rng.random() for _ in sv_])))
+            x.blocks[s_] = ((u_ * sv_) @ vh_).astype(b.dtype)
+        feats = {"more-than-256-singular-values", "direct"}
+        ctx.count("feature", "dtype:" + dt)
+    else:
+        x, feats = lingen.rand_matrix(ctx, rng, kind=rng.choice(["direct", "direct", "fused", "deficient"]) if not many else "direct", min_charges=2 if not many else 4, max_charges=3 if not many else 6, sym=rng.choice(["U1", "U1U1", "Z4", "Z2Z2"]) if many else None, sparsity=0.0 if many else None)
     if many:
         ctx.count("feature", "four-or-more-charges")
     if x is None or not x.blocks:
@@ -271,6 +292,8 @@ def case(ctx, rng):
         ctx.count("feature", f)
     # ---- ladder per mode
     modes = rng.sample([1, 2, 3, 4, 5, 6], 2 if ctx.quick else 6)
+    if big:
+        modes = [1, 2, rng.choice([3, 4, 5, 6])]
     for mode in modes:
         p = 2 if mode in (3, 4) else 1
         if mode == 1:
@@ -284,6 +307,8 @@ def case(ctx, rng):
             base = [q / tot for q in qs] if mode in (4, 6) else qs
         ladder = sorted(set([1e-12] + [float(b) for b in base if b > 0]))
         max_bond = rng.choice([-1, -1, rng.randint(1, N + 2)])
+        if big:
+            max_bond = rng.randint(N // 5, N - 1)
         via = rng.choice(["function", "autoray"])
         hist = []
         rec_for_absorb = None
@@ -336,3 +361,5 @@ def case(ctx, rng):
 def run(ctx):
     for _, rng in ctx.cases("matrices", ctx.budget(20000, 400000)):
         ctx.run_case(case, ctx, rng)
+    for _, rng in ctx.cases("big-spectrum", ctx.budget(64, 1200)):
+        ctx.run_case(case, ctx, rng, True)
